@@ -116,6 +116,9 @@ type Case struct {
 	Opt     OptSpec `json:"opt"`
 	Load    string  `json:"load,omitempty"` // "", "reload", "proto", "over", or a legacy layout name
 	Over    bool    `json:"over,omitempty"` // loads go into an instance that holds another trie and was used
+	// Earlier: a trie built BEFORE this case's own builds/loads and kept alive; it is
+	// observed before and after the case (later builds must not change a finished trie)
+	Earlier *Case `json:"earlier,omitempty"`
 
 	Extra []Hex `json:"extra,omitempty"` // drawn extra queries
 	Win   int   `json:"win,omitempty"`   // start of the mutation window in Keys
@@ -353,6 +356,8 @@ func init() {
 	te.typ = reflect.TypeOf(tstruct{})
 	add(te)
 
+	add(intSpec("StrictU32", strictU32{}, 4, func(v uint64) interface{} { return uint32(v) }))
+
 	ou := &encSpec{name: "OptU16", enc: optU16{}, width: 0}
 	ou.value = func(p []byte) interface{} {
 		if optAbsent(p) {
@@ -413,7 +418,26 @@ func (optU16) GetEncodedSize(b []byte) int {
 
 func optAbsent(p []byte) bool { return len(p) == 0 || p[0]%3 == 0 }
 
-var fixedEncNames = []string{"I8", "I16", "I32", "I64", "U16", "U32", "U64", "Int", "Bytes1", "Bytes3", "Bytes5", "Bytes300", "TypeEnc"}
+// strictU32 is a USER-DEFINED fixed-size encoder that takes the interface
+// documentation literally: "GetSize returns the size in byte after encoding v.
+// If v is of type this encoder can not encode, it panics." (GetEncodedSize is
+// called with nil by the library itself and must accept it.)
+type strictU32 struct{}
+
+func (strictU32) Encode(d interface{}) []byte {
+	v := d.(uint32)
+	return []byte{byte(v), byte(v >> 8), byte(v >> 16), byte(v >> 24)}
+}
+func (strictU32) Decode(b []byte) (int, interface{}) {
+	return 4, uint32(b[0]) | uint32(b[1])<<8 | uint32(b[2])<<16 | uint32(b[3])<<24
+}
+func (strictU32) GetSize(d interface{}) int {
+	_ = d.(uint32) // panics for anything that is not a uint32, as documented
+	return 4
+}
+func (strictU32) GetEncodedSize(b []byte) int { return 4 }
+
+var fixedEncNames = []string{"I8", "I16", "I32", "I64", "U16", "U32", "U64", "Int", "Bytes1", "Bytes3", "Bytes5", "Bytes300", "TypeEnc", "StrictU32"}
 var allEncNames = append(append([]string{}, fixedEncNames...), "String16", "Dummy", "OptU16")
 
 func (c *Case) spec() *encSpec {
@@ -812,6 +836,11 @@ func lateRejectedBuild() (rejected bool, err error) {
 
 // usedInstance returns a trie (same encoder as c) that holds other data and
 // whose read APIs have all been called at least once.
+// coldStart (set by the C11 test): helpers must not call read APIs on their
+// own, so that the FIRST use of every API in the process happens in the
+// concurrent phase (process-wide lazily initialised state).
+var coldStart bool
+
 func usedInstance(c *Case) *trie.SlimTrie {
 	keys := []string{"", "\x00", "a", "ab", "abc", "abd", "b", "\xff", "\xff\xff"}
 	oc := &Case{Keys: hexes(keys), Enc: c.Enc, HasVals: true, Opt: OptSpec{1, 0, 0, 2}}
@@ -821,6 +850,9 @@ func usedInstance(c *Case) *trie.SlimTrie {
 	st, err := oc.build()
 	if err != nil {
 		panic(fmt.Sprintf("harness: cannot build the used instance: %v", err))
+	}
+	if coldStart {
+		return st
 	}
 	te := typedEnc(oc)
 	for _, k := range append(keys, "zz", "abcd") {
